@@ -15,7 +15,10 @@ MANIFEST = dict(
               'abstract execution, proved equal to the hand model when its rows are the model\'s) + exhaustive code-point / small-scope correspondence + in-kernel '
               'small-scope enumeration of the model of the code + oracle search (incl. histories: state carried from one tokenizer to the next); '
               'round 4: _get_token / _handle_comment read from the source as decision trees proved equal to the hand model when they pass eight '
-              'boolean conditions, a state census, and the whole property in one theorem for the three functions as written',
+              'boolean conditions, a state census, and the whole property in one theorem for the three functions as written; '
+              'round 5: histories of calls (escape_text in the other mode first, fresh interpreters), options set through the public attributes '
+              'after construction / between tokens (oracle, correspondence with the constructor form, option census), an escape_text state census, '
+              'look-ahead regexes modelled, one option vector per call in the trace theorem',
     text='Theorems in Props/C02.v, for every string (list of code points), both multiline modes, every option vector with '
          'allow_escapes, any starting line and any text following the closing quote: tokenizing DQ+escape(s)+DQ yields exactly '
          'STRING s then EOF for ever (flat input and the chunked reader state of the real class, any chunking); the escaped '
@@ -36,6 +39,16 @@ MANIFEST = dict(
          'boolean conditions, give exactly STRING s then EOF for ever for every string, both modes and ANY chunking. A state census '
          '(no data attribute bound in the class body, no self attribute / module name outside line_num, _last_was_cr, the options and the '
          'reader read or written, constant tables never mutated) backs the premise that nothing outlives a call. '
+         'Round 5: the options are public settable attributes read by every call: tokens_flat_opts gives a trace one option vector per call, '
+         'c02_inverse_options_read_at_call_time / c02_one_call_as_written say that escapes need to be enabled only during the call that reads '
+         'the string, from any reader state left by earlier calls; that the class really reads the attributes at call time is the obligation '
+         'tokenizer_options_are_read_from_the_public_attribute_at_call_time (option census of __init__ and the class body) and the '
+         'correspondence options_by_attribute (constructor form vs every option inverted at construction and set by setattr). escape_text is '
+         'modelled as a function of (text, multiline): the obligation escape_text_uses_no_state_outliving_the_call (census of escape_text, its '
+         'callback and helpers: decorators, global, mutable module-level objects, shared defaults) backs that. A regex alternative X(?!Y) is '
+         'modelled (PSubLA: X is copied when Y follows); such a pipeline is never one table substitution (c02_lookahead_refuted). When the body '
+         'of escape_text is outside the statement language, translate:escape_text fails by name and a per-character stand-in sampled from the '
+         'implementation keeps every other obligation and correspondence evaluated. '
          'The theorems are generic over the tables; the conditions '
          '(every escape decodes back, no symbol is a line feed, DQ/CR/backslash always escaped, LF escaped in single-line mode, '
          'DQ is not an operator) are discharged by vm_compute for the tables regenerated from the source on every run. '
@@ -88,19 +101,31 @@ def units_bad(esc: str, multiline: bool) -> str | None:
     return None
 
 
-def oracle(s: str, multiline: bool, pre: str = '', post: str = '', cut: int | None = None, bits: int = BITS_ESC) -> str | None:
+VIAS = ('ctor', 'attr', 'switch')
+VIA_SUFFIX = {'attr': '-options-by-attribute', 'switch': '-options-switched-between-tokens'}
+
+
+def oracle(s: str, multiline: bool, pre: str = '', post: str = '', cut: int | None = None, bits: int = BITS_ESC, via: str = 'ctor') -> str | None:
     """The property on the real code. Returns None if it holds, else a short description.  Every call is bounded in time: a fault
-    that makes escape_text or the tokenizer loop is a failing input ('no result within ... s'), not a hung check."""
+    that makes escape_text or the tokenizer loop is a failing input ('no result within ... s'), not a hung check.
+    `via`: how the tokenizer gets its options (they are documented, settable attributes, and "with escapes enabled" does not say how):
+    'ctor' = constructor arguments; 'attr' = constructed with every option the other way round, then set through the attributes;
+    'switch' = constructed the other way round, the tokens of `pre` are read that way, THEN the attributes are set (between tokens)."""
     try:
         with U.time_limit():
-            return _oracle(s, multiline, pre, post, cut, bits)
+            return _oracle(s, multiline, pre, post, cut, bits, via)
     except U.ImplTimeout:
-        U.note_hang('oracle', (s, multiline, pre, post, cut, bits))
+        U.note_hang('oracle', (s, multiline, pre, post, cut, bits, via))
         return f'hang: no result within {U.IMPL_LIMIT_S:.0f} s of CPU time'
 
 
-def _oracle(s: str, multiline: bool, pre: str, post: str, cut: int | None, bits: int) -> str | None:
+_ALIAS: dict[str, Any] = {}      # set while an alias of escape_text / Tokenizer found in another module is being tried
+
+
+def _oracle(s: str, multiline: bool, pre: str, post: str, cut: int | None, bits: int, via: str = 'ctor') -> str | None:
     from srctools.tokenizer import Token, Tokenizer, TokenSyntaxError, escape_text
+    escape_text = _ALIAS.get('escape_text', escape_text)
+    Tokenizer = _ALIAS.get('Tokenizer', Tokenizer)
     try:
         esc = escape_text(s, multiline)
     except Exception as e:  # noqa: BLE001
@@ -110,13 +135,25 @@ def _oracle(s: str, multiline: bool, pre: str, post: str, cut: int | None, bits:
         return ub
     text = pre + '"' + esc + '"' + post
     data: Any = text if cut is None else [text[:cut], '', text[cut:]]
-    tk = Tokenizer(data, None, **U.opts_of_bits(bits))
+    pre_bits = bits
+    if via == 'switch' and pre:
+        try:        # the tokens of `pre` are read with every option the other way round - if that is possible at all
+            want_pre = list(Tokenizer(pre, None, **U.opts_of_bits(bits ^ U.ALL_OPTS)))
+            pre_bits = bits ^ U.ALL_OPTS
+        except TokenSyntaxError:
+            via = 'attr'
+    elif via == 'switch':
+        via = 'attr'
+    tk = Tokenizer(data, None, **U.opts_of_bits(pre_bits)) if via == 'switch' else U.make_tokenizer(Tokenizer, data, bits, via)
     try:
         if pre:
-            want_pre = list(Tokenizer(pre, None, **U.opts_of_bits(bits)))
+            want_pre = list(Tokenizer(pre, None, **U.opts_of_bits(pre_bits)))
             got_pre = [tk() for _ in want_pre]
             if got_pre != want_pre:
                 return 'prefix-tokens-changed'
+        if via == 'switch':
+            for k, v in U.opts_of_bits(bits).items():
+                setattr(tk, k, v)
         line0 = tk.line_num
         got = tk()
         if got != (Token.STRING, s):
@@ -139,23 +176,29 @@ def _oracle(s: str, multiline: bool, pre: str, post: str, cut: int | None, bits:
     return None
 
 
-def kv_oracle(s: str, multiline: bool) -> str | None:
-    """The escaped string as key and as value (plain and flagged line) of a KeyValues block, through Keyvalues.parse."""
+def kv_oracle(s: str, multiline: bool, via: str = 'ctor') -> str | None:
+    """The escaped string as key and as value (plain and flagged line) of a KeyValues block, through Keyvalues.parse.
+    via='attr': Keyvalues.parse is handed a tokenizer that was built with allow_escapes=False and had the option switched on
+    through the attribute afterwards (a parser that learns from a header whether the file uses escapes)."""
     try:
         with U.time_limit():
-            return _kv_oracle(s, multiline)
+            return _kv_oracle(s, multiline, via)
     except U.ImplTimeout:
-        U.note_hang('kv_oracle', (s, multiline))
+        U.note_hang('kv_oracle', (s, multiline, via))
         return f'hang: no result within {U.IMPL_LIMIT_S:.0f} s of CPU time'
 
 
-def _kv_oracle(s: str, multiline: bool) -> str | None:
+def _kv_oracle(s: str, multiline: bool, via: str = 'ctor') -> str | None:
     from srctools.keyvalues import Keyvalues
-    from srctools.tokenizer import escape_text
+    from srctools.tokenizer import Tokenizer, escape_text
     esc = escape_text(s, multiline)
     text = '"blk"\n{\n\t"' + esc + '" "' + esc + '"\n\t"k2" "' + esc + '" [flag]\n}\n'
     try:
-        kv = Keyvalues.parse(text, flags={'flag': True}, newline_keys=True, newline_values=True)
+        src: Any = text
+        if via != 'ctor':
+            src = Tokenizer(text, None, string_bracket=True, allow_escapes=False)      # the options Keyvalues.parse itself uses
+            src.allow_escapes = True
+        kv = Keyvalues.parse(src, flags={'flag': True}, newline_keys=True, newline_values=True)
         blk = kv.find_key('blk')
         got = [(c.real_name, c.value) for c in blk]
     except Exception as e:  # noqa: BLE001
@@ -273,6 +316,177 @@ def history_search(ck: Ck) -> None:
     ck.hist('search', f'histories: {len(POISONS)} kinds of earlier event x strings up to length 2 x 2 modes', 2 * len(POISONS) * 211)
 
 
+# ------------------------------------------------------------------------------------------------ the public names are the checked objects
+def public_names(ck: Ck) -> None:
+    """The translators read `def escape_text` and `class Tokenizer` in tokenizer.py; callers get whatever the NAMES are bound to
+    when the import has finished (the module ends with a block that selects between a C and a Python version; other modules
+    re-export the names: srctools.keyvalues.escape_text is what vmf.py uses).  Obligation: every public name by which the two can
+    be reached is the very object that was compiled from the definition the translators read - a plain function / class, not a
+    wrapper, a partial, a subclass or a second definition.  A name that is something else is tried with the oracle."""
+    import importlib
+    import types
+
+    from harness.common import REPO
+    import srctools.tokenizer as T
+    bad: list[str] = []
+    side = ck.extra.get('translated', {}).get('EscTables_gen', {})
+    f = T.escape_text
+    if not (isinstance(f, types.FunctionType) and f.__module__ == 'srctools.tokenizer' and f.__name__ == 'escape_text' and f.__closure__ is None
+            and f.__defaults__ == (False,) and not f.__kwdefaults__ and not f.__dict__):
+        bad.append(f'srctools.tokenizer.escape_text is {f!r} (module {getattr(f, "__module__", "?")}, defaults {getattr(f, "__defaults__", "?")}, '
+                   f'attributes {sorted(getattr(f, "__dict__", {}))}): not the plain function defined in tokenizer.py')
+    elif side.get('escape_text_line') and f.__code__.co_firstlineno != side['escape_text_line']:
+        bad.append(f'srctools.tokenizer.escape_text was compiled from line {f.__code__.co_firstlineno}, the translator read the definition at line {side["escape_text_line"]}')
+    K = T.Tokenizer
+    if not (isinstance(K, type) and K.__module__ == 'srctools.tokenizer' and K.__qualname__ == 'Tokenizer'):
+        bad.append(f'srctools.tokenizer.Tokenizer is {K!r}: not the class defined in tokenizer.py')
+    else:
+        for m in ('__init__', '__call__', '_get_token', '_handle_string', '_handle_comment', '_next_char'):
+            holder = next((c for c in K.__mro__ if m in c.__dict__), None)
+            fn = holder.__dict__[m] if holder is not None else None
+            if not (isinstance(fn, types.FunctionType) and fn.__module__ == 'srctools.tokenizer' and not fn.__dict__ and fn.__code__.co_freevars in ((), ('__class__',))) \
+                    or (m != '__call__' and holder is not K):
+                bad.append(f'Tokenizer.{m} is {fn!r} (found in {holder}): not a plain method of the class in tokenizer.py')
+    ref = {'escape_text': T.escape_text, 'Tokenizer': T.Tokenizer}
+    aliases = [('srctools.tokenizer', a, getattr(T, a, None), r) for a, r in (('_py_escape_text', 'escape_text'), ('cy_escape_text', 'escape_text'),
+                                                                            ('Py_Tokenizer', 'Tokenizer'), ('Cy_Tokenizer', 'Tokenizer'))]
+    # every module of the package that imports one of the two names re-exports it
+    src = REPO / 'src' / 'srctools'
+    import ast as _ast
+    mods = 0
+    for path in sorted(src.rglob('*.py')):
+        try:
+            tree = _ast.parse(path.read_text(encoding='utf8'))
+        except (SyntaxError, OSError, UnicodeDecodeError):
+            continue
+        got = {(a.asname or a.name) for n in tree.body if isinstance(n, _ast.ImportFrom) for a in n.names if a.name in ref}
+        got |= {n.name for n in tree.body if isinstance(n, (_ast.FunctionDef, _ast.ClassDef)) and n.name in ref}
+        if not got or path.name == 'tokenizer.py':
+            continue
+        name = '.'.join(('srctools',) + path.relative_to(src).with_suffix('').parts).removesuffix('.__init__')
+        try:
+            with U.time_limit():
+                mod = importlib.import_module(name)
+        except BaseException as e:  # noqa: BLE001 - optional dependencies, Cython-only modules
+            ck.count('alias_modules_not_importable')
+            if isinstance(e, (KeyboardInterrupt, SystemExit)):
+                raise
+            continue
+        mods += 1
+        for a in sorted(got):
+            orig = next((al.name for n in tree.body if isinstance(n, _ast.ImportFrom) for al in n.names if (al.asname or al.name) == a and al.name in ref), a)
+            aliases.append((name, a, getattr(mod, a, None), orig))
+    tried = 0
+    for modname, a, obj, r in aliases:
+        ck.count('public_aliases')
+        if obj is ref[r]:
+            continue
+        bad.append(f'{modname}.{a} is {obj!r}, not srctools.tokenizer.{r}')
+        if not callable(obj) or tried >= 4:
+            continue
+        tried += 1
+        _ALIAS[r] = obj
+        try:
+            done = False
+            for ml in (False, True):
+                for s_ in U.strings_upto(ESC_ALPHA, 2):
+                    why = oracle(s_, ml)
+                    if why is not None and not done:
+                        done = True
+                        mode = 'multi' if ml else 'single'
+                        kind = why.split(' ')[0] if why.startswith(('raw-', 'linebreak', 'dangling')) else 'roundtrip'
+                        ck.violation(f'{kind}-{mode}-{"+".join(cname(c) for c in s_) or "empty"}-through-{modname}.{a}',
+                                     f'{modname}.{a} is not srctools.tokenizer.{r}; with it, s={s_!r} multiline={ml}: {why}',
+                                     {'s': [ord(c) for c in s_], 'multiline': ml, 'context': {}, 'alias': [modname, a, r], 'why': why,
+                                      'how': f'the property with {modname}.{a} in the place of srctools.tokenizer.{r}'})
+        finally:
+            _ALIAS.clear()
+    ck.hist('tie', f'public names compared by identity ({len(aliases)} names in {mods + 1} modules)', len(aliases))
+    ck.obligation('tie:public_names_are_the_checked_objects', not bad,
+                  f'escape_text / Tokenizer as importers get them ({len(aliases)} names in {mods + 1} modules of the package, the Py_/Cy_/_py_/cy_ aliases '
+                  f'included) are the plain function / class compiled from the definitions the translators read: '
+                  + ('yes' if not bad else '; '.join(bad[:6])))
+    if bad:
+        ck.tie_broken.append(f'public names are not the checked objects: {bad[:3]}')
+
+
+# ------------------------------------------------------------------------------------------------ histories of escape_text calls (fresh interpreters)
+ESC_HISTORY = 'escape_text-called-in-the-other-mode-first'
+
+
+def _fresh(code: str, timeout: int = 600) -> Any:
+    """Run `code` (which prints one JSON value) in a FRESH interpreter with the implementation on its path."""
+    import subprocess
+    import sys
+    from harness.common import ENV_IMPL
+    r = subprocess.run([sys.executable, '-c', code], capture_output=True, text=True, timeout=timeout, env=ENV_IMPL, cwd=str(VERIF))
+    if r.returncode != 0:
+        raise U.Inconclusive(f'fresh interpreter failed: rc={r.returncode} {r.stderr[-400:]}')
+    return json.loads(r.stdout.strip().splitlines()[-1])
+
+
+def _esc_history_child(first_multiline: bool, n: int) -> None:
+    """(child) For every string over the escape alphabet up to length n, in an interpreter that has not called escape_text before:
+    escape_text(s, first mode) - result ignored -, then the property in the OTHER mode, then again in the first mode.  A function
+    of (text, multiline) cannot tell; a memo keyed by the text alone can."""
+    from srctools.tokenizer import escape_text
+    bad = []
+    for s in U.strings_upto(ESC_ALPHA, n):
+        try:
+            escape_text(s, first_multiline)
+        except Exception:  # noqa: BLE001
+            pass
+        for ml in (not first_multiline, first_multiline):
+            r = oracle(s, ml)
+            if r is not None:
+                bad.append([[ord(c) for c in s], ml, r, ml != first_multiline])
+    print(json.dumps(bad))
+
+
+def reproduces_fresh(s: str, ml: bool, kw: dict, history: bool) -> bool:
+    """Does oracle(s, ml, **kw) fail in a fresh interpreter (optionally after escape_text(s, not ml))?"""
+    pre = f'escape_text({s!r}, {not ml}); ' if history else ''
+    code = ('import json; from srctools.tokenizer import escape_text; import checks.c02 as c; ' + pre
+            + f'print(json.dumps(c.oracle({s!r}, {ml}, **{kw!r}) is not None))')
+    return bool(_fresh(code))
+
+
+def escape_history_search(ck: Ck) -> None:
+    """escape_text is a function of (text, multiline): calling it in one mode must not change what it returns in the other mode
+    later.  Two fresh interpreters (single-line first / multiline first), every string up to length 2 (3 thorough)."""
+    n = 3 if ck.thorough else 2
+    reported: set[str] = set()
+    import subprocess
+    for first in (False, True):
+        try:
+            bad = _fresh(f'import checks.c02 as c; c._esc_history_child({first}, {n})', timeout=300)
+        except (U.Inconclusive, subprocess.TimeoutExpired, OSError, ValueError) as e:
+            # a search that could not run reduces coverage, it is not a finding; a fault that breaks or hangs escape_text itself is
+            # reported by the in-process searches
+            ck.notes.append(f'escape_text histories ({"multiline" if first else "single-line"} first): fresh interpreter gave no result: {str(e)[:200]}')
+            ck.count('search_escape_text_histories_not_run')
+            continue
+        ck.count('search_escape_text_histories', 2 * sum(len(ESC_ALPHA) ** k for k in range(n + 1)))
+        for codes, ml, why, after_other in bad:
+            s = ''.join(map(chr, codes))
+            if not after_other or reproduces_fresh(s, ml, {}, False):
+                ck.count('search_history_independent_failures')     # fails without any history: the exhaustive search reports it
+                continue
+            mode = 'multi' if ml else 'single'
+            kind = why.split(' ')[0] if why.startswith(('raw-', 'linebreak', 'dangling')) else 'roundtrip'
+            cls = '+'.join(cname(c) for c in s) or 'empty'
+            key = f'{kind}-{mode}-{cls}-after-{ESC_HISTORY}'
+            k0 = f'{kind}-{mode}'
+            if k0 in reported:
+                ck.count('search_failures_beyond_cap')
+                continue
+            reported.add(k0)
+            ck.violation(key, f'after escape_text({s!r}, multiline={not ml}) in the same interpreter, escape_text({s!r}, multiline={ml}) no longer satisfies the property: {why}',
+                         {'s': codes, 'multiline': ml, 'context': {}, 'history': ESC_HISTORY, 'why': why,
+                          'how': 'fresh interpreter: escape_text(s, not multiline); checks.c02.oracle(s, multiline)'})
+    ck.hist('search', f'escape_text histories: other mode first, 2 fresh interpreters x strings up to length {n}', 4 * sum(len(ESC_ALPHA) ** k for k in range(n + 1)))
+
+
 CAP = 3
 _REPORTED: dict[str, int] = {}
 
@@ -281,36 +495,65 @@ def report(ck: Ck, s: str, ml: bool, why: str, ctx: dict | None = None) -> None:
     ctx = ctx or {}
     # at most CAP shrunk replays per class of failure (kind of failure x mode x how it was embedded): a fault that breaks
     # thousands of random strings must not produce thousands of replays (each one is shrunk, which costs oracle runs)
+    via = ctx.get('via', 'ctor')
     cls0 = (why.split(' ')[0] if why.startswith(('raw-', 'linebreak', 'dangling')) else 'roundtrip') + ('-multi' if ml else '-single') \
-        + ('-kvparse' if ctx.get('kv') else '-embedded' if ctx else '')
+        + ('-kvparse' if ctx.get('kv') else '-embedded' if set(ctx) - {'via'} else '') + VIA_SUFFIX.get(via, '')
     _REPORTED[cls0] = _REPORTED.get(cls0, 0) + 1
     if _REPORTED[cls0] > CAP:
         ck.count('search_failures_beyond_cap')
         return
-    kw = {k: ctx[k] for k in ('pre', 'post', 'cut', 'bits') if k in ctx}
+    kw = {k: ctx[k] for k in ('pre', 'post', 'cut', 'bits', 'via') if k in ctx}
     if ctx.get('kv'):
-        small = shrink(s, lambda t: kv_oracle(t, ml) is not None)
-        why = kv_oracle(small, ml) or why
+        small = shrink(s, lambda t: kv_oracle(t, ml, via) is not None)
+        why = kv_oracle(small, ml, via) or why
+        if via != 'ctor' and kv_oracle(small, ml) is not None:       # fails with constructor options too: how the options are set is irrelevant
+            ctx = {'kv': True}
+            via = 'ctor'
     else:
         small = shrink(s, lambda t: oracle(t, ml, **kw) is not None)
         why = oracle(small, ml, **kw) or why
-    # does the bare form fail too? then the context is irrelevant
-    if ctx and oracle(small, ml) is not None:
-        ctx = {}
-        small = shrink(small, lambda t: oracle(t, ml) is not None)
-        why = oracle(small, ml) or why
+        # does the bare form (constructor options, no context) fail too? then the context is irrelevant
+        if ctx and oracle(small, ml) is not None:
+            ctx = {}
+            via = 'ctor'
+            small = shrink(small, lambda t: oracle(t, ml) is not None)
+            why = oracle(small, ml) or why
+        elif via != 'ctor':
+            kw0 = {k: v for k, v in kw.items() if k != 'via'}
+            if oracle(small, ml, **kw0) is not None:                  # the context alone does it
+                ctx, via = dict(kw0), 'ctor'
+            elif via == 'attr' and oracle(small, ml, via='attr') is not None:   # setting the options by attribute alone does it
+                ctx = {'via': 'attr'}
+                small = shrink(small, lambda t: oracle(t, ml, via='attr') is not None and oracle(t, ml) is None)
+                why = oracle(small, ml, via='attr') or why
     from srctools.tokenizer import escape_text
     mode = 'multi' if ml else 'single'
     cls = '+'.join(cname(c) for c in small) or 'empty'
     kind = why.split(' ')[0] if why.startswith(('raw-', 'linebreak', 'dangling')) else 'roundtrip'
-    key = f'{kind}-{mode}-{cls}' + ('-kvparse' if ctx.get('kv') else '-embedded' if ctx else '')
+    key = f'{kind}-{mode}-{cls}' + ('-kvparse' if ctx.get('kv') else '-embedded' if set(ctx) - {'via'} else '') + VIA_SUFFIX.get(via, '')
     try:
         esc = escape_text(small, ml)
     except Exception as e:  # noqa: BLE001
         esc = f'<{type(e).__name__}>'
-    ck.violation(key, f'escape_text({small!r}, multiline={ml}) = {esc!r}: {why}',
-                 {'s': [ord(c) for c in small], 'multiline': ml, 'context': ctx, 'why': why,
-                  'how': 'checks.c02.oracle("".join(map(chr, s)), multiline, **context)'})
+    hist = None
+    if not ctx.get('kv'):
+        kw1 = {k: ctx[k] for k in ('pre', 'post', 'cut', 'bits', 'via') if k in ctx}
+        try:
+            if not reproduces_fresh(small, ml, kw1, False):
+                # the failure needs something that happened earlier in this process
+                hist = ESC_HISTORY if reproduces_fresh(small, ml, kw1, True) else 'earlier-calls-in-the-checking-process'
+                key += f'-after-{hist}'
+        except (U.Inconclusive, OSError, ValueError, __import__('subprocess').TimeoutExpired):
+            pass
+    how = {'attr': ' [tokenizer built with every option the other way round, options then set through the attributes]',
+           'switch': ' [options set through the attributes after the tokens of the prefix were read]'}.get(via, '')
+    if hist:
+        how += f' [only after {hist}: in a fresh interpreter the same call passes]'
+    rep = {'s': [ord(c) for c in small], 'multiline': ml, 'context': ctx, 'why': why,
+           'how': 'checks.c02.oracle("".join(map(chr, s)), multiline, **context)'}
+    if hist:
+        rep['history'] = hist
+    ck.violation(key, f'escape_text({small!r}, multiline={ml}) = {esc!r}: {why}{how}', rep)
 
 
 def search(ck: Ck, escalate: bool) -> None:
@@ -325,6 +568,7 @@ def search(ck: Ck, escalate: bool) -> None:
                 report(ck, s, ml, r)
     # (h) histories: state carried from one tokenizer to the next
     history_search(ck)
+    escape_history_search(ck)
     # (a) exhaustive over the escape alphabet
     for ml in (False, True):
         for s in U.strings_upto(ESC_ALPHA, n):
@@ -335,6 +579,21 @@ def search(ck: Ck, escalate: bool) -> None:
             if len(s) >= 2:
                 ck.seen(('x', ml, s))
     ck.hist('search', f'exhaustive alphabet {len(ESC_ALPHA)} up to length {n}, both modes', 2 * sum(len(ESC_ALPHA) ** k for k in range(n + 1)))
+    # (a') the same with the options set through the public attributes after construction (every option was the other way round
+    #      in the constructor), and through Keyvalues.parse on such a tokenizer
+    for ml in (False, True):
+        for s in U.strings_upto(ESC_ALPHA, n - 1):
+            ck.count('search_exhaustive_options_by_attribute')
+            r = oracle(s, ml, via='attr')
+            if r is not None:
+                report(ck, s, ml, r, {'via': 'attr'})
+            if len(s) <= 2:
+                r = kv_oracle(s, ml, 'attr')
+                if r is not None:
+                    report(ck, s, ml, r, {'kv': True, 'via': 'attr'})
+            if len(s) >= 2:
+                ck.seen(('xa', ml, s))
+    ck.hist('search', f'exhaustive alphabet {len(ESC_ALPHA)} up to length {n - 1}, both modes, options set by attribute', 2 * sum(len(ESC_ALPHA) ** k for k in range(n)))
     # (b) random longer strings: full Unicode incl. surrogates, embedded, chunked, other option vectors, Keyvalues.parse
     rng: random.Random = ck.rng
     contexts = [('', ''), ('"key" ', ' [flag]\n'), ('\r', '\n"next"'), ('{ ', ' }'), ('"a" "b"\r\n\t', '\r\n"c"'),
@@ -362,22 +621,49 @@ def search(ck: Ck, escalate: bool) -> None:
             pre, post = '', ''
         total = len(pre) + len(post) + 2 + 2 * L
         cut = rng.randint(0, total) if rng.random() < 0.5 else None
+        via = VIAS[i % 3]
         ctx = {'pre': pre, 'post': post, 'cut': cut, 'bits': bits}
+        if via != 'ctor':
+            ctx['via'] = via
         ck.count('search_random')
         ck.hist('random_len', L)
         ck.hist('random_pool', pool)
         ck.hist('random_context', repr((pre, post)))
-        r = oracle(s, ml, pre, post, cut, bits)
+        ck.hist('random_options_set_by', via)
+        r = oracle(s, ml, pre, post, cut, bits, via)
         if r is not None:
             report(ck, s, ml, r, ctx)
         if any(c in NAMES for c in s):
-            ck.seen(('r', ml, s, pre, cut, bits))
+            ck.seen(('r', ml, s, pre, cut, bits, via))
         if i % 4 == 0:
             ck.count('search_kvparse')
-            r = kv_oracle(s, ml)
+            kvia = 'attr' if i % 8 == 0 else 'ctor'
+            r = kv_oracle(s, ml, kvia)
             if r is not None:
-                report(ck, s, ml, r, {'kv': True})
+                report(ck, s, ml, r, {'kv': True, 'via': kvia} if kvia != 'ctor' else {'kv': True})
     ck.sample({'search_example': {'s': 'a\\"\n', 'escape_text single': 'a\\\\\\"\\n', 'tokens': '[(STRING, s)] then EOF'}})
+
+
+def sample_escape_text(chars: list[str], inv: dict[str, str]) -> tuple[str, str] | None:
+    """Stand-in for the translator when the body of escape_text is outside its statement language (translate/c02_tables.py
+    `translate(sample=...)`): the real escape_text on every single character of ESCAPES_INV, both modes -> the characters each mode
+    leaves alone.  None when a character maps to something that is neither itself nor its table entry."""
+    try:
+        with U.time_limit():
+            from srctools.tokenizer import escape_text
+            out = []
+            for ml in (False, True):
+                ex = ''
+                for c in chars:
+                    e = escape_text(c, ml)
+                    if e == c:
+                        ex += c
+                    elif e != inv[c]:
+                        return None
+                out.append(ex)
+            return out[0], out[1]
+    except (U.ImplTimeout, Exception):  # noqa: BLE001
+        return None
 
 
 # ------------------------------------------------------------------------------------------------ correspondence
@@ -398,6 +684,7 @@ def model_counterexamples(ck: Ck) -> None:
         return
     wit = [(ml, ''.join(map(chr, w))) for ml, v in zip((False, True), vals[:2]) for w in parse_coq_nested(v)]
     wit += [(ml, chr(c) * m) for ml, v in zip((False, True), vals[2:]) for c, m in parse_coq_nested(v)]
+    wit.sort(key=lambda t: len(t[1]))
     ck.obligation('instance:escape_text_model_roundtrips_small_scope', not wit,
                   f'in-kernel enumeration (escape_text pipeline as translated from the source + tokenizer model) of all {n} strings over the '
                   f'escape alphabet up to length 3 and every run of one of these characters of length 5, 17, 33, 65, 129, 257, x 2 modes: '
@@ -625,20 +912,37 @@ def _run(ck: Ck) -> None:
                'astral) of length 1..200 embedded in ten token contexts, cut into chunks at a random position, under other '
                'option vectors, through Keyvalues.parse, non-trivial = contains a character of the escape alphabet; histories: 11 kinds of '
                'earlier event (failed / complete / abandoned parses) followed by every string up to length 2 in a new tokenizer, '
-               'non-trivial = two different characters; distinct by full input')
+               'non-trivial = two different characters; escape_text histories: the other mode first, in two fresh interpreters, strings up to '
+               'length 2; options by attribute: every string up to length 3 with every option inverted in the constructor and set by setattr, '
+               'a third of the random cases that way and a third with the options set after the prefix tokens were read; distinct by full input')
     ck.trusted.append('hand-written model Text/Tokenizer.v (handle_string/get_token) and Text/Escape.v (tied by exhaustive small-scope and per-code-point differential runs on every run; handle_string also by the decision table read from the source)')
     ck.trusted.append('translate/c02_hstring.py: abstract execution of the loop body of Tokenizer._handle_string (fail-closed outside its statement language)')
     ck.trusted.append('translate/c02_gettoken.py: abstract execution of the segments of Tokenizer._get_token / _handle_comment into decision trees, and the state census (fail-closed outside its statement language)')
     ck.trusted.append('harness/c02_util.py checksum mirror of Text/TokEnum.v (63-bit; a collision would hide a disagreement)')
     ck.assumptions.append('Python str = list of code points; re.sub over an alternation of single characters acts per character (exercised by the string correspondence)')
+    ck.trusted.append('translate/c02_tables.py escape_text_census and translate/c02_gettoken.py option_census (syntactic censuses: what they do not list is assumed stateless / read at call time)')
     ck.assumptions.append('pure-Python tokenizer only; the Cython twin _tokenizer.pyx cannot be built in this sandbox')
-    ok_t = ck.translate('EscTables_gen', c02_tables.translate)
+    ok_t = ck.translate('EscTables_gen', lambda: c02_tables.translate(sample=sample_escape_text))
+    side0 = ck.extra.get('translated', {}).get('EscTables_gen', {})
+    if ok_t and side0.get('escape_text_failed_closed'):
+        # the tables were read, but the body of escape_text (or a regex) is outside the statement language: a named obligation of its
+        # own; a per-character stand-in keeps every file building and every other obligation / correspondence evaluated
+        ck.obligation('translate:escape_text', False, f'translator failed closed on the body of escape_text: {side0["escape_text_failed_closed"]} '
+                                                      f'(stand-in pipeline: {side0.get("escape_text_fallback")})')
+        ck.tie_broken.append(f'translator escape_text: {side0["escape_text_failed_closed"]}')
+    elif ok_t:
+        ck.obligation('translate:escape_text', True, 'body of escape_text recognised (pipeline of whole-string steps)')
+    if side0.get('escape_text_state'):
+        ck.tie_broken.append(f'escape_text keeps state between calls: {side0["escape_text_state"][:4]}')
+        ck.notes.append(f'escape_text census: {side0["escape_text_state"][:6]}')
     ok_h = translate_hstring(ck)
     ok_g = U.translate_get_token_trees(ck)
     side = ck.extra.get('translated', {}).get('EscTables_gen', {})
     escalate = bool(side) and any(side.get('digests', {}).get(k) != v for k, v in c02_tables.MODEL_DIGESTS.items())
     if escalate:
         ck.notes.append('hand-modelled tokenizer functions changed since the model was written: correspondence budgets escalated')
+    if ok_t:
+        public_names(ck)
     built = ok_t and ck.build(['Props/C02.vo', 'Text/TokEnum.vo', 'Text/HsGen.vo', 'Text/GtGen.vo'])
     if built:
         th = U.theorems_in_background(ck, 'Props/C02.v')
@@ -657,6 +961,7 @@ def _run(ck: Ck) -> None:
             'escape_text_steps_wellformed': 'escape_rows_wellformed',
             'escape_text_is_one_table_substitution_single': 'escape_is_one_substitution false',
             'escape_text_is_one_table_substitution_multi': 'escape_is_one_substitution true',
+            'escape_text_uses_no_state_outliving_the_call': 'escape_text_uses_no_state_outliving_the_call',
             'token_enum_values_distinct': 'token_values_distinct',
             'operators_name_known_tokens': 'operators_all_known',
         })
@@ -666,6 +971,7 @@ def _run(ck: Ck) -> None:
         corr_codepoints(ck)
         corr_escape_strings(ck, escalate)
         corr_quoted(ck, escalate)
+        U.corr_options_by_attribute(ck)
         U.join_theorems(ck, th)
     search(ck, escalate)
     if ck.violations:
@@ -674,6 +980,7 @@ def _run(ck: Ck) -> None:
         ck.explain('correspondence:')
         ck.explain('build:')
         ck.explain('translate:')
+        ck.explain('tie:')
 
 
 def replay(data: dict) -> int:
@@ -686,20 +993,37 @@ def replay(data: dict) -> int:
     s = ''.join(map(chr, r['s']))
     ml = bool(r['multiline'])
     ctx = r.get('context') or {}
+    if r.get('alias'):
+        import importlib
+        modname, a, ref_name = r['alias']
+        obj = getattr(importlib.import_module(modname), a)
+        print(f'{modname}.{a} = {obj!r} is used in the place of srctools.tokenizer.{ref_name}')
+        _ALIAS[ref_name] = obj
+        if ref_name == 'escape_text':
+            escape_text = obj
+    if r.get('history') == ESC_HISTORY:
+        print(f'history: first escape_text(s, multiline={not ml}) = {escape_text(s, not ml)!r}')
+    elif r.get('history') == 'earlier-calls-in-the-checking-process':
+        print('history: the failure was observed only after earlier calls in the checking process; it may not reproduce here')
     esc = escape_text(s, ml)
     print(f's = {s!r}\nescape_text(s, multiline={ml}) = {esc!r}')
-    if r.get('history'):
+    if r.get('history') in dict(POISONS):
         print(f'history: first {r["history"]} (text {dict(POISONS).get(r["history"])!r}), then a new tokenizer')
         run_poison(r['history'])
+    if ctx.get('via'):
+        print({'attr': 'options: the tokenizer is built with every option the other way round, then each option is set through its attribute',
+               'switch': 'options: built the other way round, the tokens of the prefix are read, then each option is set through its attribute'}[ctx['via']])
     if ctx.get('kv'):
-        res = kv_oracle(s, ml)
+        res = kv_oracle(s, ml, ctx.get('via', 'ctor'))
     else:
-        kw = {k: ctx[k] for k in ('pre', 'post', 'cut', 'bits') if k in ctx}
+        kw = {k: ctx[k] for k in ('pre', 'post', 'cut', 'bits', 'via') if k in ctx}
         try:
-            print('tokens:', list(Tokenizer(kw.get('pre', '') + '"' + esc + '"' + kw.get('post', ''))))
+            tk = U.make_tokenizer(Tokenizer, kw.get('pre', '') + '"' + esc + '"' + kw.get('post', ''), kw.get('bits', BITS_ESC),
+                                  'attr' if ctx.get('via') == 'attr' else 'ctor')
+            print('tokens:', list(tk))
         except Exception as e:  # noqa: BLE001
             print('tokenizer raised', repr(e))
-        if r.get('history'):
+        if r.get('history') in dict(POISONS):
             run_poison(r['history'])
         res = oracle(s, ml, **kw)
     mv = U.model_eval([f'gen_escape {"true" if ml else "false"} {coq_str(s)}',
